@@ -44,7 +44,7 @@ def run(ctx):
     from maze_dataset.generation.generators import GENERATORS_MAP, LatticeMazeGenerators
 
     shapes = genwork.shapes(ctx, max_exh=6, n_random=30 if ctx.quick else 200, max_random=20 if ctx.quick else 40)
-    reps = 8 if ctx.quick else 80
+    reps = 8 if ctx.quick else 40
     i = 0
     for rep in range(reps):
         for (R, C) in shapes:
